@@ -283,6 +283,20 @@ pub fn run_hist<R: Reader<Offset = usize>>(
     live: Option<(&Rc<Cell<i64>>, i64)>,
     emptied_is_detached: bool,
 ) -> Run {
+    run_hist_probe(section, buf, ops, consulted, live, emptied_is_detached, None)
+}
+
+/// `probe` (if given) is set to `true` exactly while the operation proper executes, so that a
+/// tracing reader (C18) can tell the history's own reads from the harness' observations
+pub fn run_hist_probe<R: Reader<Offset = usize>>(
+    section: R,
+    buf: &[u8],
+    ops: &[Op],
+    consulted: Option<&CountId>,
+    live: Option<(&Rc<Cell<i64>>, i64)>,
+    emptied_is_detached: bool,
+    probe: Option<&Cell<bool>>,
+) -> Run {
     let mut problems = Vec::new();
     let base = match section.to_slice() {
         Ok(Cow::Borrowed(s)) => s.as_ptr() as usize,
@@ -320,6 +334,9 @@ pub fn run_hist<R: Reader<Offset = usize>>(
                 Win::At(o, _) => Some(o),
                 _ => None,
             };
+            if let Some(p) = probe {
+                p.set(true);
+            }
             let out = caught(|| match *op {
                 Op::Fixed(_, 1) => res(r.read_u8(), |v| v.to_string()),
                 Op::Fixed(_, 2) => res(r.read_u16(), |v| v.to_string()),
@@ -363,8 +380,14 @@ pub fn run_hist<R: Reader<Offset = usize>>(
                 }
                 Op::OffFrom(..) => {
                     let o = other.as_ref().unwrap();
+                    if let Some(p) = probe {
+                        p.set(false);
+                    }
                     let a = window(r, base, buf, &mut Vec::new(), "");
                     let b = window(o, base, buf, &mut Vec::new(), "");
+                    if let Some(p) = probe {
+                        p.set(true);
+                    }
                     match (a, b) {
                         (Win::At(..), Win::At(..)) => format!("some{}", r.offset_from(o)),
                         _ => "det".into(),
@@ -374,7 +397,14 @@ pub fn run_hist<R: Reader<Offset = usize>>(
                     let id = r.offset_id();
                     ids.push(id);
                     let a = id.0 as usize;
-                    if a >= base && a <= base + buf.len() && !matches!(window(r, base, buf, &mut Vec::new(), ""), Win::Det(_)) {
+                    if let Some(p) = probe {
+                        p.set(false);
+                    }
+                    let attached = !matches!(window(r, base, buf, &mut Vec::new(), ""), Win::Det(_));
+                    if let Some(p) = probe {
+                        p.set(true);
+                    }
+                    if a >= base && a <= base + buf.len() && attached {
                         format!("id{}", a - base)
                     } else {
                         "iddet".into()
@@ -425,6 +455,9 @@ pub fn run_hist<R: Reader<Offset = usize>>(
                 Op::Offset(_, f) => res(r.read_offset(f), |v| v.to_string()),
                 Op::SizedOff(_, n) => res(r.read_sized_offset(n), |v| v.to_string()),
             });
+            if let Some(p) = probe {
+                p.set(false);
+            }
             let text = out.unwrap_or_else(|| "P".to_string());
             // zero-copy / pointer-range oracles on what the operation handed back
             match *op {
@@ -561,7 +594,7 @@ pub fn handle(op: &str, a: &[&str]) -> Option<String> {
 
             let mut out = format!("ok {}", shared.trace.join(" "));
             let mut oracle: Option<String> = None;
-            let mut note = |o: &mut Option<String>, s: String| {
+            let note = |o: &mut Option<String>, s: String| {
                 if o.is_none() {
                     *o = Some(s);
                 }
